@@ -5,17 +5,28 @@ from fractions import Fraction
 import numpy as np
 
 from .. import core
+from ..translate import nonlin as tr_nonlin
 
 ID = "C03"
 PROPS_FILE = "C03"
-RULE = ("correspondence: every built-in nonlinear term (4 convection forms, gradient norm with/without mean fix, polynomial up to degree 3, general nonlinear, 2D vorticity convection, "
+RULE = ("translator: every __call__ under exponax/nonlin_fun and the private nonlinear functions of exponax/stepper/reaction (with the helper methods, BaseNonlinearFun.fft / ifft / dealias and "
+        "the constructor statements they read) are re-translated to Gen/NonlinFuns.v in the vocabulary of Nonlin/Terms.v and proved equal to the hand-written terms for all arguments, states and modes "
+        "(Tie/NonlinTie.v, C03_code_terms_are_model_terms); correspondence: every built-in nonlinear term (4 convection forms, gradient norm with/without mean fix, polynomial up to degree 3, general nonlinear, 2D vorticity convection, "
         "3D projected convection, Leray, Cahn-Hilliard, Gray-Scott) evaluated by exponax on the rfft of a random real state vs the extracted model (circular convolutions over the retained band "
         "in exact Gaussian-rational arithmetic on the same float coefficients), all retained modes compared and out-of-band output required to vanish; the dealiasing mask vs the rational cutoff "
         "K(N) for N = 3..200; witness: independent NumPy fine-grid (4N, no aliasing) evaluation of the documented operator. N ranges cover all residues mod 12. "
         "Non-trivial: states with content up to Nyquist; distinct by input hash.")
 ASSUMPTIONS = ["rfftn(irfftn U * irfftn V) = N^-D circular convolution (convolution theorem; proved per axis, iterated by the D-dim transform)",
-               "polynomial terms of degree > 3 are not modelled"]
+               "polynomial terms of degree > 3 are not modelled",
+               "translator contracts (properties of rfftn / irfftn, see harness/translate/nonlin.py): rfftn is linear, rfftn(1) = N^D at the mean mode, rfftn(irfftn(M x)) = M x, "
+               "the mean of a field is its mean-mode coefficient / N^D; the single-channel helpers of ConvectionNonlinearFun act on a one-channel state; the state carries a dealiasing mask"]
 FRACS = {"2/3": (2, 3, 2 / 3), "1/2": (1, 2, 1 / 2)}
+
+
+def translate(ctx):
+    """Gen/NonlinFuns.v: the nonlinear functions re-translated from the source (tied to Nonlin/Terms.v by Tie/NonlinTie.v and the
+    theorem C03_code_terms_are_model_terms); on failure the file is replaced by a stub, so that the proof cannot use a stale text"""
+    tr_nonlin.run()
 
 
 def _ex():
